@@ -8,6 +8,21 @@ import typing
 from tools.lib import core
 
 PROP = 'C15'
+
+MANIFEST = dict(
+        technique='Coq proof (induction over chunk lists / line streams) about a hand model of the line buffer and T2-translated '
+                  'processors; extracted-model vs. implementation correspondence',
+        text='Theorems in coq/theories/Properties/C15.v: chunk independence for every pipeline state machine and every chunking that '
+             'does not separate CR from LF (full statement refuted by witness: known finding F-CRLF-SPLIT), identity for no-op '
+             'pipelines under every chunking, exact trimming of the translated TrimTrailingWhitespace (regex semantics in Coq), '
+             'bound/keeps-non-empty/subsequence for the translated LimitEmptyLines for every N>=0. Tie: processors and both regular '
+             'expressions are re-translated from /repo on every run (proofs re-checked), the buffering loop is tied by running the '
+             'extracted model and CodeGenerator._generate_with_line_buffer on the same chunk sequences.',
+        note='Trusted: Coq kernel; T2 translator (Python ast -> Gallina) and regex parser; table of Python whitespace code points; '
+             'extraction (ExtrOcamlBasic only) + OCaml driver; the hand model of the buffering loop is validated, not verified. '
+             'Not covered: _copy_header_using_line_pps (support files copied verbatim) is modelled but not part of the theorems.',
+        design='§5 C15')
+
 ALPHABET = ['a', 'b', 'Z', ' ', ' ', '\t', '\n', '\n', '\n', '\r\n', '\r\n', '\r', '\f', '\v', ' ', ' ', '　',
             '\U0001F600', '\x1c', '\x85', ';']
 PIPELINES = [
